@@ -12,6 +12,7 @@ import (
 	"go/ast"
 	"go/parser"
 	"go/token"
+	"go/types"
 	"os"
 	"path/filepath"
 	"sort"
@@ -189,6 +190,8 @@ type c16Site struct {
 	PCode      int `json:"pcode,omitempty"`
 	EnchClass  int `json:"ench_class,omitempty"`
 	EnchHelper bool `json:"ench_helper,omitempty"`
+	CodeArg    string `json:"code_arg,omitempty"` // the error expression SMTPCode classifies
+	EnchArg    string `json:"ench_arg,omitempty"` // the error expression SMTPEnchCode classifies
 	Unresolved string `json:"unresolved,omitempty"`
 }
 
@@ -284,6 +287,7 @@ func c16Scan(repo string) ([]c16Site, error) {
 							p, ok2 := c16IntLit(call.Args[2])
 							if ok1 && ok2 {
 								s.Code, s.TCode, s.PCode = fmt.Sprintf("SMTPCode(%d,%d)", t, p), t, p
+								s.CodeArg = types.ExprString(call.Args[0])
 							} else {
 								s.Unresolved = "SMTPCode with non-literal codes"
 							}
@@ -296,6 +300,7 @@ func c16Scan(repo string) ([]c16Site, error) {
 						} else if call, ok := kv.Value.(*ast.CallExpr); ok && c16SelName(call.Fun) == "SMTPEnchCode" && len(call.Args) == 2 {
 							if txt, _, ok := c16EnchLit(call.Args[1]); ok {
 								s.Ench, s.EnchHelper = "SMTPEnchCode("+txt+")", true
+								s.EnchArg = types.ExprString(call.Args[0])
 							} else {
 								s.Unresolved = "SMTPEnchCode with a non-literal code"
 							}
@@ -341,6 +346,9 @@ func c16RunSite(s c16Site) (vs []ev.V) {
 		}
 		if s.Ench == "" {
 			return vs // enhanced code left to the server default, which follows the basic code
+		}
+		if s.EnchHelper && s.CodeArg != s.EnchArg {
+			vs = append(vs, ev.Vf(sig, "%s: the basic code is chosen by the class of %s, the enhanced code by the class of %s: the two can disagree", where, s.CodeArg, s.EnchArg))
 		}
 		for _, temp := range []bool{true, false} {
 			code := map[bool]int{true: s.TCode, false: s.PCode}[temp]
